@@ -121,7 +121,8 @@ func RunByteStream(finals []BSFinal, seed int64, blobSizes []int, stride int) (r
 			payload += m.Len
 		}
 		surplus := payload > 2 && !s.Exists && s.Name == "ok"
-		picked := !(stride > 1 && (ki+int(seed))%stride != 0)
+		// (so are the streams that end before their first message: there are only two of them)
+		picked := !(stride > 1 && (ki+int(seed))%stride != 0) || len(s.Msgs) == 0
 		if !picked && !surplus {
 			continue
 		}
@@ -177,7 +178,11 @@ func RunByteStream(finals []BSFinal, seed int64, blobSizes []int, stride int) (r
 				name = fmt.Sprintf("%suploads/%s/blobs/%s/%d%s", inst, uuid, blob.Hash, bsz, tail)
 			}
 			before, _ := serverGoroutines() // leftovers of earlier calls, if any
-			ctx, cancel := context.WithTimeout(context.Background(), 30*time.Second)
+			patience := 30 * time.Second
+			if len(s.Msgs) == 0 {
+				patience = 8 * time.Second // nothing is ever sent: the answer cannot depend on work the server has to do
+			}
+			ctx, cancel := context.WithTimeout(context.Background(), patience)
 			w, e := f.BS.Write(ctx)
 			if e != nil {
 				cancel()
